@@ -196,7 +196,9 @@ int main()
         g_id = id;
         printf("C %ld\n", id);
         fflush(stdout);
-        alarm(cmd == "API" ? 120 : 15); // every non-API call takes milliseconds
+        // every non-API call on a small case takes milliseconds; the large thread-count cases (lines of 0.1 .. 1 MB) get
+        // a few seconds per 64 kB of input on top (a loaded machine, 16 threads under the sanitizers)
+        alarm(cmd == "API" ? 120 : 15 + (unsigned)(line.size() >> 16) * 4);
         tsne::TSNE T;
         if (cmd == "DD" || cmd == "ZM")
         {
